@@ -62,7 +62,31 @@ def objNameLfq (k : Nat) : String := if k < 500 then s!"node{k}" else s!"dummy{k
 def objName (k : Nat) : String :=
   if k < 1000 then s!"n{k}" else if k < 2000 then s!"q{k - 1000}h" else if k < 3000 then s!"q{k - 2000}t" else "stack"
 
+/-- defer scenario: callback objects `&cb<o>_<k>|<low bits>` are the integers 10^9 + 16·(100·o + k) + bits; the harness prints
+words as signed longs, the IR's constants are unsigned -/
+def cbOf (s : String) : Option Int :=
+  if s.startsWith "&cb" then
+    let body := (s.drop 3).toString
+    let (nm, bits) := match body.splitOn "|" with
+      | [a, b] => (a, b.toNat?.getD 0)
+      | _ => (body, 0)
+    match nm.splitOn "_" with
+    | [o, k] => match o.toNat?, k.toNat? with
+      | some o, some k => some (1000000000 + 16 * (100 * o + k) + bits : Nat)
+      | _, _ => none
+    | _ => none
+  else none
+
+def cbStr (n : Int) : Option String :=
+  if 1000000000 ≤ n ∧ n < 1000000000 + 16 * 100000 then
+    let m := (n - 1000000000).toNat
+    let idx := m / 16
+    let bits := m % 16
+    some (s!"&cb{idx / 100}_{idx % 100}" ++ (if bits == 0 then "" else s!"|{bits}"))
+  else none
+
 def valOf (s : String) : Except String Val :=
+  if (cbOf s).isSome then .ok (.int ((cbOf s).getD 0)) else
   if s.startsWith "&" then
     match objOfName (s.drop 1).toString with
     | some k => .ok (.ptr (.obj k))
@@ -71,7 +95,12 @@ def valOf (s : String) : Except String Val :=
 
 /-- trace spelling of a value; pointers-vs-integers: the harness prints NULL as 0 -/
 def valStr (mode : String := "") : Val → String
-  | .int n => toString n
+  | .int n =>
+    if mode == "defer" then
+      match cbStr n with
+      | some s => s
+      | none => if n ≥ 9223372036854775808 then toString (n - 18446744073709551616) else toString n
+    else toString n
   | .ptr (.obj k) => "&" ++ (if mode == "lfq" then objNameLfq k else objName k)
   | .ptr (.field (.obj k) "node") => "&" ++ objName k
   | .ptr (.glob g) => if g.startsWith "stack" then s!"&{g}" else s!"&?{g}"
@@ -83,7 +112,15 @@ def locStr (mode : String) (r : Nat) : Loc → String
     else if g.startsWith "&" || g.startsWith "stack" then s!"?{g}.{f}"
     else s!"{g}.{f}"
   | .field (.field (.glob "gp_waiters") "stack") "head" => "waiters.head"
+  | .glob "defer_thread_futex" => "dfutex"
+  | .glob "defer_thread_stop" => "dstop"
   | .glob g => if g.startsWith "rcu_" then (g.drop 4).toString else g
+  | .field (.field (.tls "defer_queue") "q") ix =>
+    -- element k of the ring: the scenario names the ring q<tid>, byte offsets
+    let k := ((ix.drop 1).toString.dropEnd 1).toString.toNat?.getD 0
+    if k == 0 then s!"q{r}" else s!"q{r}+{8 * k}"
+  | .field (.tls "defer_queue") f =>
+    if f == "head" then s!"dq{r}" else if f == "tail" then s!"dq{r}+16" else s!"dq{r}.{f}"
   | .field (.tls g) f =>
     if g == s!"urcu_{flavor mode}_reader" then s!"reader{r}.{f}" else s!"tls:{g}.{f}"
   | .field (.obj k) f =>
@@ -212,6 +249,12 @@ def callSpec (d : D) (ws : List String) : Option (String × Stmt × List String 
   | "gp-mb", ["unlock"] => some ("mb.unlock", «_urcu_mb_read_unlock», [], [])
   | "gp-bp", ["lock"] => some ("bp.lock", «_urcu_bp_read_lock», [], [])
   | "gp-bp", ["unlock"] => some ("bp.unlock", «_urcu_bp_read_unlock», [], [])
+  | "defer", ["defer", f, p] =>
+    match valOf f, valOf p with
+    | .ok fv, .ok pv =>
+      let u : Val → Val := fun v => match v with | .int n => .int (if n < 0 then n + 18446744073709551616 else n) | x => x
+      some ("defer.defer_rcu", «_defer_rcu», «_defer_rcu.params», [u fv, u pv])
+    | _, _ => none
   | "lfq", ["enq", n] => (node n).map fun v => ("lfq.enq", «_cds_lfq_enqueue_rcu», «_cds_lfq_enqueue_rcu.params», [S, v])
   | "wfs", ["push", n] => (node n).map fun v => ("wfs.push", «_cds_wfs_push», «_cds_wfs_push.params», [S, v])
   | "wfs", "pop" :: rest =>
@@ -246,6 +289,7 @@ def privFn (l : List (Loc × Val)) : Loc → Option Val := fun m => (l.find? (·
 
 /-- locations whose private value the driver carries from call to call (own reader word) -/
 def carry (mode : String) (r : Nat) : List Loc :=
+  if mode == "defer" then [.field (.tls "defer_queue") "head", .field (.tls "defer_queue") "last_fct_in"] else
   if mode == "gp-bp" then [.field (.obj r) "ctr"]
   else [.field (.tls s!"urcu_{flavor mode}_reader") "ctr", .field (.tls s!"urcu_{flavor mode}_reader") "waiting"]
 
@@ -260,6 +304,7 @@ def initPriv (d : D) (r : Nat) : List (Loc × Val) :=
    (.field (.tls s!"urcu_{fl}_reader") "waiting", .int 0),
    (.tls "urcu_bp_reader", .ptr (.obj r)), (.field (.obj r) "ctr", .int 0),
    (.glob "&state", .int 0),
+   (.field (.tls "defer_queue") "head", .int 0), (.field (.tls "defer_queue") "last_fct_in", .int 0),
    (.glob s!"urcu_{fl}_has_sys_membarrier_private_expedited", .int (if d.cfgOf "membarrier" == "1" then 1 else 0)),
    (.field (.glob "rcu_gp") "ctr", d.gpctr)]
 
@@ -341,7 +386,9 @@ def finish (d : D) (t : Nat) (th : Thr) (c : Call) (complete : Bool) : Except St
     | none => pure ()
   let priv0 := if th.priv.isEmpty then initPriv d th.ridx else th.priv
   let env : Env := { vars := bindParams c.params c.args, priv := privFn priv0 }
-  match exec 100000 c.fn env inp with
+  let inp2 := if d.mode == "defer" then inp.map (fun v => match v with
+    | .int n => Val.int (if n < 0 ∧ n ≠ -1 then n + 18446744073709551616 else n) | x => x) else inp
+  match exec 100000 c.fn env inp2 with
   | .error e => .error s!"IR of {c.op} fails on this call: {e}"
   | .ok out =>
     let got := out.events.filterMap (evWords d.mode th.ridx)
@@ -366,6 +413,7 @@ def drive (d : D) (ws : List String) : Except String D :=
     | none => .ok d
     | some tid =>
       let th := d.getT tid
+      let th := if d.mode == "defer" && th.ridx == 0 then { th with ridx := tid } else th
       match rest with
       | ["READER", r] => .ok (d.setT tid { th with ridx := r.toNat?.getD 0 })
       | "CALL" :: c =>
